@@ -66,6 +66,45 @@ static int replay_rebases_fpos(void) {
   close(pw->fh); unlink(mp); unlink(wp); rmdir(dir);
   return res;
 }
+// Does _rollforward_exl (recover_mode 1, checksum checking on) look at the segments in front of a reset mark before it
+// restarts the replay there?  The pinned source does not: the scanner that finds the mark verifies no checksum, so a
+// mark planted inside a damaged segment makes the replay skip that segment's checksum (fixes/wal-reset-prefix-verified.diff).
+// Log: [SEP(crc wrong) SET SAVEPOINT] [SEP RESET] [SEP SET(off 0 := 1) SAVEPOINT]; 1 = CORRUPTED_WAL, 0 = rc 0.
+static int replay_verifies_reset_prefix(void) {
+  char dir[] = "/tmp/wal-probe-XXXXXX";
+  if (!mkdtemp(dir)) return -1;
+  char mp[64], wp[64];
+  snprintf(mp, sizeof(mp), "%s/m", dir);
+  snprintf(wp, sizeof(wp), "%s/w", dir);
+  uint8_t log[256], *p = log;
+  WBSEP s0 = { .id = WOP_SEP, .crc = 0x12345678u, .len = sizeof(WBSET) + sizeof(WBSAVEPOINT) }; memcpy(p, &s0, sizeof(s0)); p += sizeof(s0);
+  WBSET w0 = { .id = WOP_SET, .val = 3, .off = 2, .len = 1 }; memcpy(p, &w0, sizeof(w0)); p += sizeof(w0);
+  WBSAVEPOINT sp0 = { .id = WOP_SAVEPOINT, .ts = 1 }; memcpy(p, &sp0, sizeof(sp0)); p += sizeof(sp0);
+  WBSEP s1 = { .id = WOP_SEP, .len = sizeof(WBRESET) }; memcpy(p, &s1, sizeof(s1)); p += sizeof(s1);
+  WBRESET rs = { .id = WOP_RESET }; memcpy(p, &rs, sizeof(rs)); p += sizeof(rs);
+  WBSEP s2 = { .id = WOP_SEP, .len = sizeof(WBSET) + sizeof(WBSAVEPOINT) }; memcpy(p, &s2, sizeof(s2)); p += sizeof(s2);
+  WBSET w1 = { .id = WOP_SET, .val = 1, .off = 0, .len = 1 }; memcpy(p, &w1, sizeof(w1)); p += sizeof(w1);
+  WBSAVEPOINT sp = { .id = WOP_SAVEPOINT, .ts = 1 }; memcpy(p, &sp, sizeof(sp)); p += sizeof(sp);
+  static uint8_t zero[4096];
+  int res = -1;
+  FILE *f = fopen(mp, "wb"); if (!f) return -1; fwrite(zero, 1, sizeof(zero), f); fclose(f);
+  f = fopen(wp, "wb"); if (!f) return -1; fwrite(log, 1, (size_t) (p - log), f); fclose(f);
+  int se = dup(2), dn = open("/dev/null", O_WRONLY);
+  dup2(dn, 2);
+  struct iwal *pw = probe_wal_struct();
+  pw->check_cp_crc = true;
+  pw->fh = open(wp, O_RDWR);
+  IWFS_EXT extf;
+  IWFS_EXT_OPTS eo = { .file = { .path = mp, .omode = IWFS_OWRITE | IWFS_OCREATE }, .use_locks = false };
+  if (!iwkv_init() && !iwfs_exfile_open(&extf, &eo)) {
+    iwrc rc = _rollforward_exl(pw, &extf, 1);
+    extf.close(&extf);
+    res = rc == IWKV_ERROR_CORRUPTED_WAL_FILE ? 1 : rc == 0 ? 0 : -1;
+  }
+  dup2(se, 2);
+  close(pw->fh); unlink(mp); unlink(wp); rmdir(dir);
+  return res;
+}
 int main(void) {
   printf("Definition iwu_crc32_table : list Z := [");
   for (int i = 0; i < 256; ++i) {
@@ -97,6 +136,11 @@ int main(void) {
     int r = replay_rebases_fpos();
     if (r < 0) return 3;
     ZV("WAL_REPLAY_REBASES_FPOS", r);
+  }
+  {
+    int r = replay_verifies_reset_prefix();
+    if (r < 0) return 4;
+    ZV("WAL_REPLAY_VERIFIES_RESET_PREFIX", r);
   }
   return 0;
 }
